@@ -7,8 +7,8 @@ import re
 import subprocess
 import sys
 
-VM = '/root/scratch/vm'
-WT = '/tmp/mut/_seedtest'
+VM = os.environ.get('HT_VM', '/root/scratch/vm')
+WT = os.environ.get('HT_WT', '/tmp/mut/_seedtest')
 props = [json.loads(l) for l in open('/verif/properties.jsonl')]
 
 
